@@ -238,8 +238,10 @@ def call_module(run, path, args, kwargs, node):
         run.may_raise(n.t <= 0, 'ValueError', 'randrange(n<=0)')
         r = run.fresh_const(z3.IntSort(), 'rr')
         run.pc += [r >= 0, r < n.t]
-        run.events.append({'kind': 'draw', 'prim': 'random.randrange', 'arg': n.t, 'value': r, 'line': run.cur_line})
+        run.events.append({'kind': 'draw', 'prim': 'random.randrange', 'arg': n.t, 'value': r, 'line': run.cur_line,
+                           'uniform_int': True, 'lo': z3.IntVal(0), 'hi': n.t - 1})
         run.bump('random.randrange')
+        run.bump('uniform_int')
         return SNum(r)
     if name == 'random.randint':
         a, b = args
@@ -247,8 +249,9 @@ def call_module(run, path, args, kwargs, node):
         r = run.fresh_const(z3.IntSort(), 'ri')
         run.pc += [r >= a.t, r <= b.t]
         run.events.append({'kind': 'draw', 'prim': 'random.randint', 'arg': (a.t, b.t), 'value': r,
-                           'line': run.cur_line})
+                           'line': run.cur_line, 'uniform_int': True, 'lo': a.t, 'hi': b.t})
         run.bump('random.randint')
+        run.bump('uniform_int')
         return SNum(r)
     if name in ('numpy.exp', 'numpy.log', 'numpy.floor'):
         f = {'numpy.exp': EXP, 'numpy.log': LOG, 'numpy.floor': FLOOR}[name]
